@@ -18,6 +18,7 @@ import CxxModel.Theorems.VarInit
 import CxxModel.Theorems.TypedefForm
 import CxxModel.Theorems.FwdDecl
 import CxxModel.Theorems.UsingAliasForm
+import CxxModel.Theorems.ClassForm
 import CxxModel.Theorems.AccessForm
 import CxxModel.Theorems.BlockEnd
 import CxxModel.Theorems.Verbose
@@ -742,5 +743,76 @@ theorem toplevel_using_alias (env : Env) (hp : RulesProgress env.cfg = true) (F 
   have hi2' := hi2
   simp only [hst'] at hi2'
   simp only [dispatch, hx, bind, interp_bind, P.emit, interp, hst', hdel, hi2', pure]
+
+/-- **`class N {` / `struct a::b::N {` / `union N {` through `parse()`'s loop**, in any block, with an
+    active visitor that does not raise here: exactly ONE start callback for a new class block
+    (`pushedWorld`) whose access level is the class-key default — `private` for `class`, `public`
+    for `struct` and `union` — carrying the written key and name, the doc text found before it and
+    the access level in force in the enclosing class; the header is consumed exactly and no doc
+    text is handed on. -/
+theorem toplevel_class_head (env : Env) (hp : RulesProgress env.cfg = true) (F D : Nat) (w : World)
+    (kw first : Tok) (pairs : List (Tok × Tok)) (ob : Tok) (bk b1 bmid b' : Buf)
+    (blk : Block) (rest : List Block) (hstack : w.stack = blk :: rest)
+    (hmu : w.muted = false) (hfa : ¬ env.faultAt = some w.delivered)
+    (htkw : tokenEofOk env.cfg w.buf = .ok (some kw, bk)) (hkw : isClassKey kw.value = true) (hkwt : kw.type = kw.value)
+    (htf : tokenEofOk env.cfg bk = .ok (some first, b1)) (hf : first.type = "NAME") (hfv : plainVal first.value = true)
+    (hall : ∀ p ∈ pairs, p.1.type = "DBL_COLON" ∧ p.2.type = "NAME" ∧ plainVal p.2.value = true)
+    (hy : Yields env.cfg b1 (pairs.flatMap (fun p => [p.1, p.2])) bmid)
+    (htok : tokenEofOk env.cfg bmid = .ok (some ob, b')) (hob : ob.type = "{") (hF : pairs.length + 2 ≤ F) :
+    ∃ (d : Option String) (bD : Buf) (w' : World) (ct : CTok),
+      getDoxygen env.cfg env.mcRe w.buf = .ok (d, bD) ∧ w'.buf = b' ∧ ct.value = kw.value ∧
+      w'.stack = w.stack ∧ w'.events = w.events ∧ w'.delivered = w.delivered ∧ w'.anon = w.anon ∧ w'.muted = w.muted ∧
+      w'.nextId = w.nextId ∧
+      interp env (mainBody F (core F (D + 1 + 1)) none) w =
+        (pushedWorld env (classHdr ct first pairs blk d) w', .ok (.inl none)) := by
+  obtain ⟨d, bD, wA, ct, hd, hsA, hbA, htyc, hv, hi⟩ := mainBody_item env hp F (core F (D + 1 + 1)) w kw bk htkw
+  obtain ⟨w', hb, hsl, hi7⟩ :=
+    parseDeclarations_class_head env F D ct d first pairs ob { wA with mainTok := some ct } b1 bmid b' blk rest
+      (by show wA.stack = _; rw [hsA.stack]; exact hstack) (by show wA.muted = _; rw [hsA.muted]; exact hmu)
+      (by show ¬ env.faultAt = some wA.delivered; rw [hsA.delivered]; exact hfa) (by rw [hv]; exact hkw)
+      (by rw [htyc, hv]; exact hkwt) (by show tokenEofOk env.cfg wA.buf = _; rw [hbA]; exact htf) hf hfv hall hy htok hob hF
+  refine ⟨d, bD, w', ct, hd, hb, hv, by rw [hsl.stack]; exact hsA.stack, by rw [hsl.events]; exact hsA.events,
+    by rw [hsl.delivered]; exact hsA.delivered, by rw [hsl.anon]; exact hsA.anon, by rw [hsl.muted]; exact hsA.muted,
+    by rw [hsl.nextId]; exact hsA.nextId, ?_⟩
+  rw [hi]
+  have hkt : Gen.dispatchTable.lookup ct.type = none ∧ Gen.keepDoxygen.contains ct.type = false := by
+    simp only [isClassKey, Bool.or_eq_true, beq_iff_eq] at hkw
+    rw [htyc, hkwt, dispatch_table_eq, keep_doxygen_eq]
+    rcases hkw with (h | h) | h <;> (rw [h]; decide)
+  have hti : topItem F (core F (D + 1 + 1)) ct d = parseDeclarations F (core F (D + 1 + 1)) ct d := by
+    unfold topItem
+    rw [hkt.1]
+  have hcar : carry ct d = none := by
+    unfold carry
+    rw [hkt.2]
+    rfl
+  rw [hti, hi7, hcar]
+
+/-- **`} ;` closing a named class through `parse()`'s loop** (visitor active or not): the end callback
+    of the class block is delivered (`deliver`); unless it raises, exactly that block is popped, the
+    visitor in force before it restored, the `;` consumed, nothing else delivered, no doc text
+    handed on. -/
+theorem toplevel_class_end (env : Env) (hp : RulesProgress env.cfg = true) (F : Nat) (c : Core) (w : World)
+    (cl semi : Tok) (b1 b' : Buf) (cb blk : Block) (rest : List Block) (n : String) (sp : Option TemplateSpec)
+    (hstack : w.stack = cb :: blk :: rest) (hg : cb.isGlobal = false) (hk : cb.hdr.kind = .cls)
+    (htd : cb.hdr.typedef = false) (hname : cb.hdr.cls.typename.segments.getLast? = some (.name n sp))
+    (hacc : blk.hdr.kind = .cls → ∃ a, blk.access = some a)
+    (htcl : tokenEofOk env.cfg w.buf = .ok (some cl, b1)) (hcl : cl.type = "}")
+    (htok : tokenEofOk env.cfg b1 = .ok (some semi, b')) (hs : semi.type = ";") :
+    ∃ (wA : World) (ct : CTok), SameParse w wA ∧ ct.value = cl.value ∧
+      ∀ w1, deliver env { wA with mainTok := some ct } (mkEvent { wA with mainTok := some ct } .blockEnd cb (some blk.id)) = (w1, none) →
+        ∃ w3, interp env (mainBody F c none) w = (w3, .ok (.inl none)) ∧ w3.buf = b' ∧
+          SameParse { w1 with muted := cb.priorMuted, stack := blk :: rest } w3 := by
+  obtain ⟨d, bD, wA, ct, _, hsA, hbA, _, hv, hi⟩ := toplevel_dispatch env hp F c w cl b1 "_on_block_end" htcl
+    (by rw [hcl, dispatch_table_eq]; decide) (by rw [hcl, keep_doxygen_eq]; decide)
+  refine ⟨wA, ct, hsA, hv, ?_⟩
+  intro w1 hd
+  obtain ⟨_, h2⟩ := class_end_named env F c { wA with mainTok := some ct } cb blk rest semi b' n sp
+    (by show wA.stack = _; rw [hsA.stack]; exact hstack) hg hk htd hname hacc
+    (by show tokenEofOk env.cfg wA.buf = _; rw [hbA]; exact htok) hs
+  obtain ⟨w3, hi3, hb3, hs3⟩ := h2 w1 hd
+  refine ⟨w3, ?_, hb3, hs3⟩
+  rw [hi]
+  simp only [dispatch, hi3]
 
 end Cxx
